@@ -2,11 +2,22 @@ import Tally.Prelude
 /-!
 # Model of `gauge` (stats.go)
 
-Atomic actions: the writer's two stores of `Update` (`storeValue v`, then `storeFlag`); a reporter's
-`swap t` (`atomic.SwapUint64(&g.updated, 0)`), and — only when the swap returned 1 — `load t`
-(`g.value()` followed by the reporter call, which the model treats as one action: see DESIGN.md C02
-for the stale-visit remark).  One updating goroutine (updates are totally ordered), any number of
-reporters.  Values are float64 bit patterns.
+```
+Update(v):   atomic.StoreUint64(&g.curr, bits v)          storeValue v
+             atomic.StoreUint64(&g.updated, 1)            storeFlag
+report():    g.reportMu.Lock(); defer Unlock()            \  swap t   (enabled iff nobody holds the gauge's
+             if atomic.SwapUint64(&g.updated, 0) == 1 {   /            report mutex; keeps it iff the flag was up)
+                 v := g.value()                              load t    (the argument of the reporter call)
+                 reporter.ReportGauge(…, v)                  deliver t (the reporter call; then Unlock)
+             }
+```
+
+One updating goroutine (updates are totally ordered), any number of reporters (threads `t : Nat`).
+Values are float64 bit patterns.  `load` and `deliver` are separate steps: a reporter can be pre-empted
+between reading the value and handing it to the reporter (in the correspondence check the recording
+reporter's entry is a schedule point).  The report mutex (repair D13) makes the visits of one gauge
+mutually exclusive; `Legacy` below is the code before that repair, where a visit that has read an older
+value can deliver it after a newer one.
 -/
 namespace Tally.Gauge
 
@@ -15,35 +26,80 @@ inductive Ev
   | storeFlag
   | swap (t : Nat)
   | load (t : Nat)
+  | deliver (t : Nat)
 deriving Repr, DecidableEq
 
 structure State where
   curr : UInt64
   updated : Bool
   writerMid : Bool                -- the writer is between its two stores
-  swapped : List Nat              -- reporters whose swap returned 1 and that have not loaded yet
+  holder : Option Nat             -- the reporter inside the report mutex with the flag consumed
+  loaded : Option UInt64          -- the value the holder has read and not yet delivered
   delivered : List UInt64         -- most recent first
   updates : List UInt64           -- values passed to Update so far (value store executed), most recent first
   flagStores : Nat                -- completed Update calls
 deriving Repr, DecidableEq
 
 def init : State :=
-  { curr := 0, updated := false, writerMid := false, swapped := [], delivered := [], updates := [], flagStores := 0 }
+  { curr := 0, updated := false, writerMid := false, holder := none, loaded := none, delivered := [], updates := [], flagStores := 0 }
 
 def step (s : State) : Ev → Option State
   | .storeValue v => if s.writerMid then none else
       some { s with curr := v, writerMid := true, updates := v :: s.updates }
   | .storeFlag => if !s.writerMid then none else
       some { s with updated := true, writerMid := false, flagStores := s.flagStores + 1 }
-  | .swap t => if s.swapped.contains t then none else
-      if s.updated then some { s with updated := false, swapped := t :: s.swapped } else some s
-  | .load t => if !s.swapped.contains t then none else
-      some { s with swapped := s.swapped.filter (· != t), delivered := s.curr :: s.delivered }
+  | .swap t =>
+      match s.holder with
+      | some _ => none                                   -- Lock() blocks
+      | none => if s.updated then some { s with updated := false, holder := some t } else some s
+  | .load t =>
+      if s.holder = some t ∧ s.loaded = none then some { s with loaded := some s.curr } else none
+  | .deliver t =>
+      match s.loaded with
+      | some v => if s.holder = some t then some { s with holder := none, loaded := none, delivered := v :: s.delivered } else none
+      | none => none
 
 def run (s : State) : List Ev → Option State
   | [] => some s
   | e :: es => match step s e with
     | none => none
     | some s' => run s' es
+
+/-! ## the code before repair D13: no report mutex -/
+namespace Legacy
+
+structure State where
+  curr : UInt64
+  updated : Bool
+  writerMid : Bool
+  swapped : List Nat                  -- reporters whose swap returned 1 and that have not read the value yet
+  loaded : List (Nat × UInt64)        -- reporters that have read a value and not yet delivered it
+  delivered : List UInt64             -- most recent first
+  updates : List UInt64               -- most recent first
+deriving Repr, DecidableEq
+
+def init : State :=
+  { curr := 0, updated := false, writerMid := false, swapped := [], loaded := [], delivered := [], updates := [] }
+
+def step (s : State) : Ev → Option State
+  | .storeValue v => if s.writerMid then none else
+      some { s with curr := v, writerMid := true, updates := v :: s.updates }
+  | .storeFlag => if !s.writerMid then none else some { s with updated := true, writerMid := false }
+  | .swap t => if s.swapped.contains t || (s.loaded.map (·.1)).contains t then none else
+      if s.updated then some { s with updated := false, swapped := t :: s.swapped } else some s
+  | .load t => if !s.swapped.contains t then none else
+      some { s with swapped := s.swapped.filter (· != t), loaded := (t, s.curr) :: s.loaded }
+  | .deliver t =>
+      match s.loaded.lookup t with
+      | some v => some { s with loaded := s.loaded.filter (·.1 != t), delivered := v :: s.delivered }
+      | none => none
+
+def run (s : State) : List Ev → Option State
+  | [] => some s
+  | e :: es => match step s e with
+    | none => none
+    | some s' => run s' es
+
+end Legacy
 
 end Tally.Gauge
